@@ -48,7 +48,14 @@ def run(rep, repo, tier):
         return
     lists = rv[1][0]
     check_own_line(rep, repo, 'C12.R3', 'the list written for an agent is that agent\'s list')
-    check_inversion(rep, f, lists, lists_p, n_p)
+    # entries for which the function raises instead of filing them (a range validation): the conditions under which a raise sits
+    rejecting = []
+    for e, ctx in iter_effects(effs):
+        if e.kind == 'raise':
+            conds = [(c.cond if br else NOT(c.cond)) for c, br in ctx if c.kind == 'if' and br is not None]
+            if conds:
+                rejecting.append(AND(*conds))
+    check_inversion(rep, f, lists, lists_p, n_p, rejecting)
     # R3: operations applied to the lists
     bad = []
     for e, ctx in iter_effects(effs):
@@ -106,7 +113,7 @@ def dict_groups_as_scatter(lists):
     return ('accum', pre, entries) + tuple(G[3:])
 
 
-def check_inversion(rep, f, lists, lists_p, n_p):
+def check_inversion(rep, f, lists, lists_p, n_p, rejecting=()):
     w = f.where
     lists = dict_groups_as_scatter(lists)
     if lists[0] != 'accum':
@@ -146,7 +153,11 @@ def check_inversion(rep, f, lists, lists_p, n_p):
                  construct='inversion domain')
         return
     rows, elem = ch[0][0], ch[1][0]
-    rep.check(ch[1][1] == TRUE, 'C12.R1', w, 'no entry is filtered out', got=show(ch[1][1]), want='unconditional', construct='inversion filtered by %s' % show(ch[1][1]).replace(show(elem), 'a'))
+    from ..terms import simp, as_cond
+    guard = ch[1][1]
+    if guard != TRUE and any(show(simp(as_cond(NOT(r_)))) == show(simp(as_cond(guard))) for r_ in rejecting):
+        guard = TRUE            # the entries outside the guard are not dropped: the function raises for them
+    rep.check(guard == TRUE, 'C12.R1', w, 'no entry is filtered out (an entry that is refused with an exception is not filtered)', got=show(ch[1][1]), want='unconditional', construct='inversion filtered by %s' % show(ch[1][1]).replace(show(elem), 'a'))
     rep.check(op == 'appendidx', 'C12.R1', w, 'entries are appended', got=op, construct='inversion op %s' % op)
     rep.check(idx == BIN('Sub', elem, C(1)), 'C12.R1', w, 'agent i is filed in the list of the agent a it ranks (index a - 1)', got=show(idx).replace(show(elem), 'a').replace(show(rows), 'list'),
               want='a - 1', construct='inversion key %s' % show(idx).replace(show(elem), 'a').replace(show(rows), 'list'))
